@@ -888,3 +888,242 @@ Proof.
         -- pose proof (E x) as Ex. rewrite upd_same in Ex.
            pose proof (E y) as Ey. rewrite upd_other in Ey by congruence. lia.
 Qed.
+
+(* ------------------------------------------------------------------ histories (generic) *)
+Section Histories.
+  Context {A : Type} (D : gdom A) (wf : A -> Prop) (gam : A -> store -> Prop).
+  Variables (okc : lincst -> Prop) (oka : var -> linexp -> Prop) (okv : var -> Prop).
+
+  (* side conditions of an operation: constraints / assignments of the language over the
+     variables of the value *)
+  Definition gop_ok (o : gop) : Prop :=
+    match o with
+    | GAssume _ cs => Forall okc cs
+    | GAssign _ x e => oka x e
+    | GForget _ vs => Forall okv vs
+    | _ => True
+    end.
+
+  Definition gtarget (o : gop) : nat :=
+    match o with
+    | GTop r | GBot r | GCopy r _ | GAssume r _ | GAssign r _ _ | GForget r _
+    | GJoin r _ _ | GMeet r _ _ => r
+    end.
+
+  (* EXACT domains: what each operation must compute, up to the set of integer points *)
+  Record exact_dom : Prop := {
+    ed_top_wf : wf (g_top D);
+    ed_top : forall s, gam (g_top D) s;
+    ed_bot_wf : wf (g_bot D);
+    ed_bot : forall s, ~ gam (g_bot D) s;
+    ed_assume : forall cs z, Forall okc cs -> wf z ->
+      wf (g_assume D cs z) /\
+      forall s, gam (g_assume D cs z) s <-> (gam z s /\ Forall (fun c => sat c s) cs);
+    ed_assign : forall x e z, oka x e -> wf z ->
+      wf (g_assign D x e z) /\
+      forall s', gam (g_assign D x e z) s' <-> exists s, gam z s /\ store_eq s' (upd s x (eval_le e s));
+    ed_forget : forall vs z, Forall okv vs -> wf z ->
+      wf (g_forget D vs z) /\
+      forall s', gam (g_forget D vs z) s' <-> exists s, gam z s /\ store_eq_off vs s s';
+    ed_join : forall a b, wf a -> wf b ->
+      wf (g_join D a b) /\
+      (forall s, gam a s \/ gam b s -> gam (g_join D a b) s) /\
+      (forall c, wf c -> (forall s, gam a s -> gam c s) -> (forall s, gam b s -> gam c s) ->
+                 forall s, gam (g_join D a b) s -> gam c s);
+    ed_meet : forall a b, wf a -> wf b ->
+      wf (g_meet D a b) /\ forall s, gam (g_meet D a b) s <-> (gam a s /\ gam b s)
+  }.
+
+  Lemma gget_wf rs r : wf (g_top D) -> Forall wf rs -> wf (gget D rs r).
+  Proof.
+    intros T F. unfold gget. revert r. induction F; intros [|r]; simpl; auto.
+  Qed.
+  Lemma gset_wf rs r v : Forall wf rs -> wf v -> Forall wf (gset rs r v).
+  Proof.
+    intros F W. revert r. induction F; intros [|r]; simpl; auto.
+  Qed.
+  Lemma gget_gset rs r v : (r < length rs)%nat -> gget D (gset rs r v) r = v.
+  Proof.
+    unfold gget. revert r. induction rs as [|h t IH]; intros [|r] H; simpl in *; try lia; auto.
+    apply IH. lia.
+  Qed.
+
+  Hypothesis E : exact_dom.
+
+  Theorem gstep_wf rs o : Forall wf rs -> gop_ok o -> Forall wf (gstep D rs o).
+  Proof.
+    intros F O. pose proof (ed_top_wf E) as T.
+    destruct o; simpl in *; apply gset_wf; auto;
+      try (apply gget_wf; auto).
+    - apply (ed_bot_wf E).
+    - apply (ed_assume E); auto. apply gget_wf; auto.
+    - apply (ed_assign E); auto. apply gget_wf; auto.
+    - apply (ed_forget E); auto. apply gget_wf; auto.
+    - apply (ed_join E); apply gget_wf; auto.
+    - apply (ed_meet E); apply gget_wf; auto.
+  Qed.
+
+  (* the invariant holds after ANY history *)
+  Theorem grun_wf h : forall rs, Forall wf rs -> Forall gop_ok h -> Forall wf (grun D rs h).
+  Proof.
+    unfold grun. induction h as [|o h IH]; intros rs F O; simpl; auto.
+    inversion O; subst. apply IH; auto. apply gstep_wf; auto.
+  Qed.
+
+  (* what the value written by one step means, in terms of the values read *)
+  Definition step_spec (rs : list A) (o : gop) (v : A) : Prop :=
+    match o with
+    | GTop _ => forall s, gam v s
+    | GBot _ => forall s, ~ gam v s
+    | GCopy _ q => v = gget D rs q
+    | GAssume r cs => forall s, gam v s <-> (gam (gget D rs r) s /\ Forall (fun c => sat c s) cs)
+    | GAssign r x e => forall s', gam v s' <->
+                                  exists s, gam (gget D rs r) s /\ store_eq s' (upd s x (eval_le e s))
+    | GForget r vs => forall s', gam v s' <-> exists s, gam (gget D rs r) s /\ store_eq_off vs s s'
+    | GJoin _ p q =>
+      (forall s, gam (gget D rs p) s \/ gam (gget D rs q) s -> gam v s) /\
+      (forall c, wf c -> (forall s, gam (gget D rs p) s -> gam c s) ->
+                 (forall s, gam (gget D rs q) s -> gam c s) -> forall s, gam v s -> gam c s)
+    | GMeet _ p q => forall s, gam v s <-> (gam (gget D rs p) s /\ gam (gget D rs q) s)
+    end.
+
+  Theorem gstep_exact rs o : Forall wf rs -> gop_ok o -> (gtarget o < length rs)%nat ->
+    step_spec rs o (gget D (gstep D rs o) (gtarget o)).
+  Proof.
+    intros F O L. pose proof (ed_top_wf E) as T.
+    destruct o; simpl in *; rewrite gget_gset by auto.
+    - apply (ed_top E).
+    - apply (ed_bot E).
+    - reflexivity.
+    - apply (ed_assume E); auto. apply gget_wf; auto.
+    - apply (ed_assign E); auto. apply gget_wf; auto.
+    - apply (ed_forget E); auto. apply gget_wf; auto.
+    - apply (ed_join E); apply gget_wf; auto.
+    - apply (ed_meet E); apply gget_wf; auto.
+  Qed.
+End Histories.
+
+(* SOUND domains and the concrete collecting semantics of histories *)
+Section SoundHistories.
+  Context {A : Type} (D : gdom A) (gam : A -> store -> Prop).
+  Variable (okc : lincst -> Prop).
+
+  Record sound_dom : Prop := {
+    sd_top : forall s, gam (g_top D) s;
+    sd_assume : forall cs z s, Forall okc cs -> gam z s -> Forall (fun c => sat c s) cs ->
+                               gam (g_assume D cs z) s;
+    sd_assign : forall x e z s s', gam z s -> store_eq s' (upd s x (eval_le e s)) ->
+                                   gam (g_assign D x e z) s';
+    sd_forget : forall vs z s s', gam z s -> store_eq_off vs s s' -> gam (g_forget D vs z) s';
+    sd_join : forall a b s, gam a s \/ gam b s -> gam (g_join D a b) s;
+    sd_meet : forall a b s, gam a s -> gam b s -> gam (g_meet D a b) s
+  }.
+
+  Definition cset := store -> Prop.
+  Definition cget (cs : list cset) (r : nat) : cset := nth r cs (fun _ => True).
+  Fixpoint csetr (cs : list cset) (r : nat) (v : cset) : list cset :=
+    match cs, r with
+    | [], _ => []
+    | _ :: t, O => v :: t
+    | h :: t, S r' => h :: csetr t r' v
+    end.
+  Definition cstepg (cs : list cset) (o : gop) : list cset :=
+    match o with
+    | GTop r => csetr cs r (fun _ => True)
+    | GBot r => csetr cs r (fun _ => False)
+    | GCopy r q => csetr cs r (cget cs q)
+    | GAssume r cl => csetr cs r (fun s => cget cs r s /\ Forall (fun c => sat c s) cl)
+    | GAssign r x e => csetr cs r (fun s' => exists s, cget cs r s /\ store_eq s' (upd s x (eval_le e s)))
+    | GForget r vs => csetr cs r (fun s' => exists s, cget cs r s /\ store_eq_off vs s s')
+    | GJoin r p q => csetr cs r (fun s => cget cs p s \/ cget cs q s)
+    | GMeet r p q => csetr cs r (fun s => cget cs p s /\ cget cs q s)
+    end.
+
+  Definition grel (rs : list A) (cs : list cset) : Prop :=
+    length rs = length cs /\ forall r s, cget cs r s -> gam (gget D rs r) s.
+
+  Definition gop_okc (o : gop) : Prop :=
+    match o with GAssume _ cl => Forall okc cl | _ => True end.
+
+  Hypothesis S : sound_dom.
+
+  Lemma cget_csetr cs r c q :
+    cget (csetr cs r c) q = if (Nat.eqb q r && (r <? length cs)%nat) then c else cget cs q.
+  Proof.
+    unfold cget. revert r q. induction cs as [|h t IH]; intros [|r] [|q]; simpl; auto;
+      try (destruct (Nat.eqb q r); reflexivity).
+    rewrite IH. destruct (Nat.eqb q r); simpl; auto.
+  Qed.
+  Lemma gget_gset_gen rs r v q :
+    gget D (gset rs r v) q = if (Nat.eqb q r && (r <? length rs)%nat) then v else gget D rs q.
+  Proof.
+    unfold gget. revert r q. induction rs as [|h t IH]; intros [|r] [|q]; simpl; auto;
+      try (destruct (Nat.eqb q r); reflexivity).
+    rewrite IH. destruct (Nat.eqb q r); simpl; auto.
+  Qed.
+  Lemma length_csetr cs r c : length (csetr cs r c) = length cs.
+  Proof. revert r. induction cs; intros [|r]; simpl; auto. Qed.
+  Lemma length_gset (rs : list A) r v : length (gset rs r v) = length rs.
+  Proof. revert r. induction rs; intros [|r]; simpl; auto. Qed.
+
+  Lemma grel_set rs cs r v (c : cset) :
+    grel rs cs -> (forall s, c s -> gam v s) -> grel (gset rs r v) (csetr cs r c).
+  Proof.
+    intros [L R] H. split.
+    - rewrite length_csetr, length_gset. auto.
+    - intros q s. rewrite cget_csetr, gget_gset_gen, L.
+      destruct (Nat.eqb q r && (r <? length cs)%nat); auto.
+  Qed.
+
+  Theorem gstep_sound rs cs o : grel rs cs -> gop_okc o -> grel (gstep D rs o) (cstepg cs o).
+  Proof.
+    intros R O. pose proof (proj2 R) as G.
+    destruct o as [r|r|r q|r cl|r x e|r vs|r p q|r p q]; simpl in *; apply grel_set; auto.
+    - intros s _. apply (sd_top S).
+    - intros s [].
+    - intros s [X Y]. apply (sd_assume S); auto.
+    - intros s' [s [X Y]]. eapply (sd_assign S); eauto.
+    - intros s' [s [X Y]]. eapply (sd_forget S); eauto.
+    - intros s [X|X]; apply (sd_join S); auto.
+    - intros s [X Y]. apply (sd_meet S); auto.
+  Qed.
+
+  (* after ANY history every register describes every store the concrete operations reach *)
+  Theorem grun_sound h : forall rs cs, grel rs cs -> Forall gop_okc h ->
+    grel (grun D rs h) (fold_left cstepg h cs).
+  Proof.
+    unfold grun. induction h as [|o h IH]; intros rs cs R O; simpl; auto.
+    inversion O; subst. apply IH; auto. apply gstep_sound; auto.
+  Qed.
+End SoundHistories.
+
+(* ------------------------------------------------------------------ zones are exact *)
+Theorem zone_exact_dom n : (0 < n)%nat ->
+  exact_dom (zone_dom n) (zwf n) gamma (z_ok n) (za_ok n) (fun v => (node v < n)%nat).
+Proof.
+  intros H0. constructor; simpl.
+  - apply z_top_wf.
+  - apply z_top_gamma.
+  - exact I.
+  - intros s [].
+  - intros cs z F W. apply z_assume_spec; auto.
+  - intros x e z O W. split; [apply z_assign_wf; auto|]. intros s'. apply z_assign_exact; auto.
+  - intros vs z F W. split; [apply z_forget_wf; auto|]. intros s'. apply z_forget_exact; auto.
+  - intros a b Wa Wb. split; [apply z_join_wf; auto|]. split.
+    + intros s [X|X]; [apply z_join_upper_l|apply z_join_upper_r]; auto.
+    + intros c Wc. apply z_join_least; auto. apply zwf_zdim; auto.
+  - intros a b Wa Wb. apply z_meet_spec; auto.
+Qed.
+
+(* non-vacuity: a value that is neither top nor bottom, with a tight derived bound *)
+Example zone_example :
+  let z := z_assume 3 [mkLC INEQ (mkLE [(1, 0%N); (-1, 1%N)] (-3)); mkLC INEQ (mkLE [(1, 1%N)] (-10))] (z_top 3) in
+  zwf 3 z /\ z_is_bot z = false /\ z_is_top 3 z = false /\ z_upper z 0%N = Some 13 /\
+  z_entails (mkLC INEQ (mkLE [(1, 0%N)] (-13))) z = true /\
+  z_entails (mkLC INEQ (mkLE [(1, 0%N)] (-12))) z = false.
+Proof.
+  split.
+  - apply z_assume_spec; [|apply z_top_wf].
+    repeat constructor; eexists; (split; [reflexivity|]); repeat constructor; simpl; lia.
+  - vm_compute. repeat split; reflexivity.
+Qed.
